@@ -57,6 +57,17 @@ func init() {
 		fr.i.ex.declare(name, "Str")
 		return symStr{p: []piece{{k: pTok, t: name}}}
 	}
+	// TokN(name, n): an opaque string of exactly n bytes (n concrete)
+	rt["TokN"] = func(fr *frame, args []value) value {
+		name := "s_" + nameArg(args[0])
+		n, ok := args[1].(int)
+		if !ok || n <= 0 {
+			panic("verifrt.TokN: length must be a positive constant")
+		}
+		fr.i.ex.declare(name, "Str")
+		fr.i.ex.addPC("(= (slen " + name + ") " + bvConst(int64(n), 64) + ")")
+		return symStr{p: []piece{{k: pTok, t: name, n: n}}}
+	}
 	rt["Bytes"] = func(fr *frame, args []value) value {
 		base := nameArg(args[0])
 		n, ok := args[1].(int)
